@@ -129,6 +129,7 @@ structure Rw where
   keys : Option (List Name) := none    -- surviving parameter keys (Assign keys, AsType dtype keys)
   gone : Bool := false                 -- the operator itself is removed (parent applied to its input)
   drop : Bool := false                 -- ResetIndex: `drop` of the new node
+  dropped : List Bool := []            -- Concat: inputs removed from the operator altogether
   deriving DecidableEq, Repr
 
 /-- first part of `plain_column_projection`: restrict to the input's columns, in input order -/
@@ -231,7 +232,7 @@ def binop (selfCols : List Name) (left right : Option (List Name)) (p : Parent) 
 /-- `AsType._simplify_up`; `dkeys` = keys of a dict `dtypes` (none: one dtype for everything) -/
 def astype (frame : List Name) (dkeys : Option (List Name)) (p : Parent) (deps : List Dep) : Option Rw :=
   let sel := detProj p deps []
-  let dk := dkeys.map (·.filter sel.has)
+  let dk := dkeys.map (·.filter (sel.toList.contains ·))
   if dk = some [] then some { childs := [none], keep := true, gone := true }
   else
     let sel' : Sel := match sel with
@@ -255,6 +256,18 @@ def combineFirst (frame other : List Name) (p : Parent) (deps : List Dep) : Opti
   let oc := other.filter sel.has
   if fc = frame && oc = other then none
   else some { childs := [some (.many fc), some (.many oc)], keep := true }
+
+/-- `OpAlignPartitions._simplify_up` (also MethodOperatorAlign): both operands are projected; `other` = columns of the
+    second operand when it is a 2-dim expression -/
+def opAlign (frame : List Name) (other : Option (List Name)) (p : Parent) (deps : List Dep) : Option Rw :=
+  match other with
+  | none => none
+  | some oc0 =>
+    let columns := (detProj p deps []).toList
+    let fc := frame.filter (columns.contains ·)
+    let oc := oc0.filter (columns.contains ·)
+    if fc = frame && oc = oc0 then none
+    else some { childs := [some (.many fc), some (.many oc)], keep := true }
 
 /-- `ResetIndex._simplify_up`, frame input; `indexNamed` = `frame._meta.index.name is not None` -/
 def resetIndex (frame : List Name) (drop indexNamed : Bool) (p : Parent) (deps : List Dep) : Option Rw :=
@@ -372,20 +385,26 @@ def concatCols (axis1 inner : Bool) : List (List Name) → List Name
     else if inner then f.filter (fun c => fs.all (·.contains c))
     else (f :: fs).flatten.foldl (fun acc c => if acc.contains c then acc else acc ++ [c]) []
 
-/-- what `Concat._simplify_up` does to one input with columns `f`: dropped from the new Concat when it keeps no column
-    (`some (.many [])`), left alone when it keeps all (`none`), projected otherwise -/
-def concatChild (columns : List Name) (f : List Name) : Option Sel :=
-  let cf := f.filter (columns.contains ·)
-  if cf.isEmpty then some (.many []) else if sortKeep cf = sortKeep f then none else some (.many cf)
+/-- `Concat._simplify_up`, one input with columns `f`: is it removed from the new Concat?  Only when columns are
+    put side by side (`axis=1`) and it keeps none; when rows are stacked every input stays (it contributes rows). -/
+def concatDropped (axis1 : Bool) (columns f : List Name) : Bool :=
+  axis1 && (f.filter (columns.contains ·)).isEmpty
 
-/-- `Concat._simplify_up` -/
+/-- … and the projection put on an input that stays: none when it keeps all its columns -/
+def concatChild (columns f : List Name) : Option Sel :=
+  let cf := f.filter (columns.contains ·)
+  if sortKeep cf = sortKeep f then none else some (.many cf)
+
+/-- `Concat._simplify_up` (2-dim inputs) -/
 def concat (axis1 inner : Bool) (frames : List (List Name)) (p : Parent) (deps : List Dep) : Option Rw :=
   let columns := (detProj p deps []).toList
   if frames.all (fun f => decide (sortKeep (f.filter (columns.contains ·)) = sortKeep f)) then none
   else
-    let newFrames := (frames.map (fun f => f.filter (columns.contains ·))).filter (fun c => !c.isEmpty)
+    let kept := frames.filter (fun f => !concatDropped axis1 columns f)
+    let newFrames := kept.map (fun f => f.filter (columns.contains ·))
     let keep := !(decide (concatCols axis1 inner newFrames = p.operand.toList) && !p.ndim1)
-    some { childs := frames.map (concatChild columns), keep := keep }
+    some { childs := frames.map (concatChild columns), keep := keep,
+           dropped := frames.map (concatDropped axis1 columns) }
 
 /-! ### Column semantics (what the rules must preserve)
 
